@@ -192,6 +192,11 @@ func (s *State) isVisible(fr *Frame, instr ssa.Instruction) (visible, yield bool
 			if fi.visible {
 				return true, s.eng.yields[fi.name]
 			}
+			// opt-in: every call of a function of the library under test is a scheduling point (state that
+			// is shared without synchronisation shows up between two statements of one function)
+			if s.opts.CallRace && f.Pkg != nil && strings.HasPrefix(f.Pkg.Pkg.Path(), logPath) && !strings.HasPrefix(f.Name(), "v") && !strings.HasPrefix(f.Name(), "H_") {
+				return true, false
+			}
 		}
 	}
 	return false, false
@@ -572,6 +577,25 @@ func (s *State) builtin(w *Worker, t *Thread, fr *Frame, b *ssa.Builtin, args []
 		case MapRef:
 			if x.ID != 0 {
 				s.wobj(x.ID).entries = nil
+			}
+		case Slice:
+			// clear(slice): every element becomes the zero value, the length stays
+			if x.ID != 0 && x.Len > 0 {
+				var et types.Type
+				if call, ok := site.(ssa.CallInstruction); ok && len(call.Common().Args) == 1 {
+					if st, ok := call.Common().Args[0].Type().Underlying().(*types.Slice); ok {
+						et = st.Elem()
+					}
+				}
+				if et == nil {
+					s.unsupported("clear on a slice of unknown element type")
+				}
+				n := slotsOf(et)
+				o := s.wobj(x.ID)
+				for i := int32(0); i < x.Len; i++ {
+					z := appendZero(make([]Value, 0, n), et)
+					copy(o.slots[int(x.Off)+int(i)*n:], z)
+				}
 			}
 		default:
 			s.unsupported("clear on %T", x)
